@@ -19,7 +19,8 @@ Record sentobs := {
   so_group : list N;
   so_cinfos : list (N * N * bool * bool * N);
   so_counts : option (list N * list N);     (* cumulative counts per left id / right id *)
-  so_alt : list (list dtoken)               (* the same sentence on a fresh worker / on other threads *)
+  so_alt : list (list dtoken);              (* the same sentence on a fresh worker / on other threads *)
+  so_pre : N                                (* num_tokens() read after reset_sentence and before tokenize (a fresh worker answers 0) *)
 }.
 
 Record tokcase := {
